@@ -272,7 +272,10 @@ func receiver(wd *world, n int, sub uint64) {
 		}
 		wire, stage, err := pipe.Seal(&s, lib, tx)
 		if own != nil && !bytes.Equal(own, ownCopy) {
-			simrt.Report("sender.buffer-modified:"+stage, fmt.Sprintf("encrypt / set MIC / marshal changed the application buffer the caller put into the frame: %x -> %x", ownCopy, own))
+			// encrypting the payload slice the caller put into the frame in
+			// place stays inside what the frame was given: the statement does
+			// not forbid it. Counted, not judged.
+			functional("sender-buffer-encrypted-in-place")
 		}
 		if err != nil {
 			functional("seal:" + stage)
@@ -382,7 +385,14 @@ func recvOther(wd *world, r *sim.Rand, single []byte) {
 	case 1:
 		wire = append([]byte{0xe0}, r.Bytes(5+r.Intn(30))...) // proprietary
 	default:
-		wire = append([]byte{0x00}, r.Bytes(18+4)...) // join-request
+		switch r.Intn(3) {
+		case 0:
+			wire = append([]byte{0x00}, r.Bytes(18+4)...) // join-request
+		case 1:
+			wire = append([]byte{0xc0, byte(2 * r.Intn(2))}, r.Bytes(13+4)...) // rejoin-request type 0 / 2
+		default:
+			wire = append([]byte{0xc0, 0x01}, r.Bytes(18+4)...) // rejoin-request type 1
+		}
 	}
 	if len(wire) == 0 {
 		return
@@ -584,6 +594,7 @@ func processFrame(j *job, r *sim.Rand) {
 	// I5: read-only operations do not modify their operand
 	before := frameSig(j.phy)
 	okA, errA := pipe.Validate(&s, j.phy, j.fcnt32, j.tx)
+	refBefore := frameSig(j.ref)
 	okB, errB := pipe.Validate(&s, j.ref, j.fcnt32, j.tx)
 	if okA != okB || (errA == nil) != (errB == nil) {
 		simrt.Report("alias.decode:mic-verdict", fmt.Sprintf("MIC verdict on the frame decoded from a reused buffer (%v,%v) differs from the verdict on a private copy (%v,%v); wire %x", okA, errA, okB, errB, j.wire))
@@ -621,6 +632,11 @@ func processFrame(j *job, r *sim.Rand) {
 	tA, _ := j.phy.MarshalText()
 	jA, _ := j.phy.MarshalJSON()
 	_, _ = tA, jA
+	j.ref.MarshalText()
+	j.ref.MarshalJSON()
+	if refAfter := frameSig(j.ref); stripFCnt(refBefore) != stripFCnt(refAfter) {
+		simrt.Report("readonly.modified:Validate/Marshal", fmt.Sprintf("validate/marshal changed the frame: before %s after %s", refBefore, refAfter))
+	}
 	// FCnt was set by Validate (documented); everything else must be untouched
 	after := frameSig(j.phy)
 	if stripFCnt(before) != stripFCnt(after) && genGet() == j.gen {
@@ -666,6 +682,19 @@ func processFrame(j *job, r *sim.Rand) {
 	if dB != nil {
 		functional("open:" + stB)
 		return
+	}
+	{
+		// I3 on the decrypted frame (decoded MAC commands, proprietary payloads)
+		sig0 := frameSig(j.ref)
+		if out, err := j.ref.MarshalBinary(); err == nil {
+			ownerWriteFill(out, 0x3c)
+		}
+		if out, err := j.ref.MarshalJSON(); err == nil {
+			ownerWriteFill(out, ' ')
+		}
+		if sig1 := frameSig(j.ref); sig1 != sig0 {
+			simrt.Report("alias.encode:decrypted-frame", fmt.Sprintf("overwriting the output of MarshalBinary/MarshalJSON changed the decrypted frame: %s -> %s", sig0, sig1))
+		}
 	}
 	fa, okFa := spec.FromLibFrame(j.phy)
 	fb, okFb := spec.FromLibFrame(j.ref)
@@ -915,6 +944,9 @@ func joinAcceptOnArena(wd *world, id int, r *sim.Rand) {
 	}
 	if !bytes.Equal(reg, snapshot) {
 		for i := range reg {
+			if i >= off && i < off+len(ct) {
+				continue // inside the slice it was given
+			}
 			if reg[i] != snapshot[i] {
 				simrt.Report("spill:DecryptJoinAcceptPayload", fmt.Sprintf("DecryptJoinAcceptPayload modified byte at offset %d of the caller's arena (ciphertext window %d..%d)", i, off, off+len(ct)))
 				break
@@ -925,7 +957,7 @@ func joinAcceptOnArena(wd *world, id int, r *sim.Rand) {
 
 // --------------------------------------------------------------- I7 bands
 
-var bandNames = []band.Name{band.EU868, band.US915, band.AU915, band.AS923, band.CN470, band.CN779, band.EU433, band.KR920, band.IN865, band.RU864, band.ISM2400, band.AS923_2}
+var bandNames = []band.Name{band.EU868, band.US915, band.AU915, band.AS923, band.CN470, band.CN779, band.EU433, band.KR920, band.IN865, band.RU864, band.ISM2400, band.AS923_2, band.AS923_3, band.AS923_4}
 
 type bandWatch struct {
 	name band.Name
